@@ -1,0 +1,30 @@
+//go:build verif
+
+// Contracts for the SHPLONK batch verifier of this curve (comment-only; installed by /verif/gcv gen-contracts).
+// What is under contract is the verifier's totality on the sizes of the proof it is handed: the proof comes from the
+// wire (its decoder accepts any vectors), so every size the verifier relies on must be one it checked. interpolate
+// needs one value per point (it reads y[i] for every point x[i]): a precondition, and therefore an obligation at the
+// verifier's call. The vectors of points and claimed values are slices of slices whose contents are not modelled
+// beyond "the same cell read twice holds the same value". The pairing check, the transcript, the polynomial helpers
+// and the relation the verifier establishes are not under contract here.
+
+package shplonk
+
+//@ func interpolate
+//@ layer ring fr.Element
+//@ assumed its documentation: "x and y are assumed to be of the same size" (it reads y[i] for every x[i]); the body is not under contract
+//@ requires len(x) == len(y)
+//@ ensures[size] len(result) == len(x)
+//@ modifies nothing
+//@ end
+
+//@ func BatchVerify
+//@ layer ring fr.Element
+//@ option opaque-calls
+//@ option nomerge
+//@ option index-panics-allowed
+//@ loop 0
+//@ + invariant[sets] 0 <= i && i <= len(points) && len(proof.ClaimedValues) == len(points) && len(digests) == len(points)
+//@ ensures[sizes] isnil(result) ==> len(proof.ClaimedValues) == len(points) && len(digests) == len(points)
+//@ modifies nothing
+//@ end
